@@ -198,39 +198,92 @@ theorem module_shape (body : List Stmt) :
 
 /-! ## the destructive-operation guard -/
 
-/-- **Guard:** when the output file exists and `phase = 0`, the whole effect trace of `main` is the `isfile` query
-    followed by `raise IOError` — for every result `gen` would have had, i.e. for every argument vector. -/
-theorem guard (fileExists : String → Bool) (output : String) (run : Except Err Output)
-    (hex : fileExists output = true) :
-    mainGen fileExists output 0 run = [.isfile output, .raise .ioError] := by
-  simp [mainGen, hex]
+/-- **Guard:** when `isfile` answers yes for the `--output-filename` argument — the raw string — and `phase = 0`, the whole
+    effect trace of `main` is that `isfile` query followed by `raise IOError`: for every file system, every result `gen`
+    would have had, i.e. for every argument vector. -/
+theorem guard (fs : FS) (output : String) (run : Except Err Output) (hex : fs.isfile output = true) :
+    mainGen fs output 0 run = [.isfile output, .raise .ioError] := by
+  simp [mainGen, guardPath, hex]
 
-/-- **Never overwrites:** on an existing file (`phase = 0`) no effect of the trace is a write; and whatever the
-    arguments, at most one write happens, it is an append, and only when `gen` succeeded. -/
-theorem never_overwrites (fileExists : String → Bool) (output : String) (phase : Int) (run : Except Err Output) :
-    (fileExists output = true → phase = 0 → ∀ e ∈ mainGen fileExists output phase run, e.isWrite = false) ∧
-    ((mainGen fileExists output phase run).filter Eff.isWrite).length ≤ 1 ∧
-    (∀ e ∈ mainGen fileExists output phase run, e.isWrite = true → e = .append output ∧ ∃ o, run = .ok o) := by
+/-- **The guard tests exactly what is written:** every path that `main` opens for appending or writes to is the raw
+    `--output-filename` string itself, that very string was handed to `isfile` earlier in the same trace, and (for
+    `phase = 0`) `isfile` answered no for it.  The guard and the writer use the *same path expression*: a normalisation
+    (`expanduser`, `realpath`, …) on one side only falsifies this theorem. -/
+theorem guard_tests_what_is_written (fs : FS) (output : String) (phase : Int) (run : Except Err Output) :
+    guardPath output = output ∧ writePath output = output ∧
+    ∀ e ∈ mainGen fs output phase run, ∀ p, e.writes? = some p →
+      p = output ∧ Eff.isfile p ∈ mainGen fs output phase run ∧ (phase = 0 → fs.isfile p = false) := by
+  refine ⟨rfl, rfl, ?_⟩
+  intro e he p hp
+  unfold mainGen at he ⊢
+  simp only [guardPath, writePath] at he ⊢
+  by_cases hg : (fs.isfile output && phase == 0) = true
+  · simp only [hg, if_true] at he
+    simp at he; rcases he with rfl | rfl <;> cases hp
+  · have hno : phase = 0 → fs.isfile output = false := by
+      intro h0; subst h0
+      cases hf : fs.isfile output with
+      | false => rfl
+      | true => simp [hf] at hg
+    simp only [hg, if_false] at he ⊢
+    cases run with
+    | error err => simp at he; rcases he with rfl | rfl <;> cases hp
+    | ok o =>
+      simp only at he ⊢
+      cases ho : fs.openAppend output with
+      | error err =>
+        simp [ho] at he
+        rcases he with rfl | rfl | rfl
+        · cases hp
+        · simp only [Eff.writes?, Option.some.injEq] at hp; subst hp; exact ⟨rfl, by simp, hno⟩
+        · cases hp
+      | ok u =>
+        simp [ho] at he
+        rcases he with rfl | rfl | rfl
+        · cases hp
+        · simp only [Eff.writes?, Option.some.injEq] at hp; subst hp; exact ⟨rfl, by simp, hno⟩
+        · simp only [Eff.writes?, Option.some.injEq] at hp; subst hp; exact ⟨rfl, by simp, hno⟩
+
+/-- **Never overwrites:** when the argument names an existing file (`phase = 0`) no effect of the trace opens or writes
+    anything; whatever the arguments, a write happens at most once, into the argument path, after `gen` computed its
+    result and `open(…, "a")` succeeded. -/
+theorem never_overwrites (fs : FS) (output : String) (phase : Int) (run : Except Err Output) :
+    (fs.isfile output = true → phase = 0 → ∀ e ∈ mainGen fs output phase run, e.isWrite = false) ∧
+    ((mainGen fs output phase run).filter Eff.isFinalWrite).length ≤ 1 ∧
+    (Eff.write output ∈ mainGen fs output phase run → (∃ o, run = .ok o) ∧ fs.openAppend output = .ok ()) := by
   refine ⟨?_, ?_, ?_⟩
   · intro hex hp e he
     subst hp
-    rw [guard fileExists output run hex] at he
+    rw [guard fs output run hex] at he
     simp at he
     rcases he with rfl | rfl <;> rfl
-  · unfold mainGen; split
-    · simp [List.filter, Eff.isWrite]
-    · cases run <;> simp [List.filter, Eff.isWrite]
-  · intro e he hw
-    unfold mainGen at he; split at he
-    · simp at he; rcases he with rfl | rfl <;> cases hw
-    · cases run with
-      | error err => simp at he; rcases he with rfl | rfl <;> cases hw
-      | ok o => simp at he; rcases he with rfl | rfl
-                · cases hw
-                · exact ⟨rfl, o, rfl⟩
+  · unfold mainGen; simp only [guardPath, writePath]
+    by_cases hg : (fs.isfile output && phase == 0) = true
+    · simp [hg, List.filter, Eff.isFinalWrite]
+    · simp only [hg, if_false]
+      cases run with
+      | error err => simp [List.filter, Eff.isFinalWrite]
+      | ok o => cases fs.openAppend output <;> simp [List.filter, Eff.isFinalWrite]
+  · intro he
+    unfold mainGen at he; simp only [guardPath, writePath] at he
+    by_cases hg : (fs.isfile output && phase == 0) = true
+    · simp [hg] at he
+    · simp only [hg, if_false] at he
+      cases run with
+      | error err => simp at he
+      | ok o =>
+        cases ho : fs.openAppend output with
+        | error err => simp [ho] at he
+        | ok u => exact ⟨⟨o, rfl⟩, rfl⟩
 
 /-- non-vacuity / remark: with `--phase 1` (outside the property's quantifier) the guard is skipped and an existing file is appended to -/
-example : mainGen (fun _ => true) "out.py" 1 (.ok (.module [])) = [.isfile "out.py", .append "out.py"] := by decide
+example : mainGen ⟨fun _ => true, fun _ => .ok ()⟩ "out.py" 1 (.ok (.module [])) =
+    [.isfile "out.py", .openAppend "out.py", .write "out.py"] := by decide
+
+/-- non-vacuity: a literal `~/models.py` is not a file for `isfile` (no directory called `~`), the guard passes, and the
+    open fails — nothing is written, although `$HOME/models.py` may well exist -/
+example : mainGen ⟨fun _ => false, fun _ => .error (.os "FileNotFoundError")⟩ "~/models.py" 0 (.ok (.module [])) =
+    [.isfile "~/models.py", .openAppend "~/models.py", .raise (.os "FileNotFoundError")] := by decide
 
 /-! ## import inference -/
 
